@@ -1,7 +1,6 @@
 (* C08: canonical lossy values print to the rendering of a well-formed layout, hence read back. *)
 From V.model Require Import Base Deb822Lex Deb822Parse Grammar Lossy LossySpec.
 From V.proofs Require Import BaseP GrammarLexP GrammarParseP GrammarAccP LossyP.
-Set Default Timeout 60.
 
 (* ---- split_lf / join / lines ---- *)
 Lemma join_cons2 sep x l : l <> [] -> join sep (x :: l) = x ++ sep ++ join sep l.
